@@ -478,7 +478,57 @@ class LinearCombination(Expression):
 # traversal.
 
 
-class ElementwisePower(Expression):
+class _ElementwiseVectorOps:
+    """Arithmetic for vector-valued nodes (ElementwisePower, ElementwiseUnary).
+
+    ``x ** 2`` and ``sin(x)`` are vectors: combining them with vectors, arrays
+    or scalars is element-wise and gives a VectorExpression, exactly as for a
+    VectorExpression holding the same elements.
+    """
+
+    __slots__ = ()
+
+    # let ``array + node`` reach __radd__ instead of NumPy broadcasting the node
+    __array_ufunc__ = None
+
+    def _as_vector(self) -> VectorExpression:
+        return VectorExpression(list(self))  # type: ignore[call-overload]
+
+    def __add__(self, other):  # type: ignore[override]
+        return _vector_binary_op(self._as_vector(), other, "+")
+
+    def __radd__(self, other):  # type: ignore[override]
+        return _vector_binary_op(self._as_vector(), other, "+", reverse=True)
+
+    def __sub__(self, other):  # type: ignore[override]
+        return _vector_binary_op(self._as_vector(), other, "-")
+
+    def __rsub__(self, other):  # type: ignore[override]
+        return _vector_binary_op(self._as_vector(), other, "-", reverse=True)
+
+    def __mul__(self, other):  # type: ignore[override]
+        return _vector_binary_op(self._as_vector(), other, "*")
+
+    def __rmul__(self, other):  # type: ignore[override]
+        return _vector_binary_op(self._as_vector(), other, "*", reverse=True)
+
+    def __truediv__(self, other):  # type: ignore[override]
+        return _vector_binary_op(self._as_vector(), other, "/")
+
+    def __rtruediv__(self, other):  # type: ignore[override]
+        return _vector_binary_op(self._as_vector(), other, "/", reverse=True)
+
+    def __pow__(self, other):  # type: ignore[override]
+        return _vector_binary_op(self._as_vector(), other, "**")
+
+    def __neg__(self):  # type: ignore[override]
+        return -self._as_vector()
+
+    def __len__(self) -> int:
+        return self.size  # type: ignore[attr-defined]
+
+
+class ElementwisePower(_ElementwiseVectorOps, Expression):
     """Element-wise power of a vector: x[i] ** k for each element.
 
     This is a vector expression representing x ** k element-wise.
@@ -602,7 +652,7 @@ class VectorPowerSum(Expression):
         return f"VectorPowerSum({self.vector.name}, {self.power})"
 
 
-class ElementwiseUnary(Expression):
+class ElementwiseUnary(_ElementwiseVectorOps, Expression):
     """Element-wise unary operation on a vector: f(x[i]) for each element.
 
     This is a vector expression representing f(x) element-wise.
@@ -1659,14 +1709,14 @@ def _vector_binary_op(
                 right_shape=right.size,
             )
         right_exprs = list(right._expressions)
-    elif isinstance(right, ElementwisePower):
+    elif isinstance(right, (ElementwisePower, ElementwiseUnary)):
         if right.size != len(left_exprs):
             raise DimensionMismatchError(
                 operation=f"vector {op}",
                 left_shape=len(left_exprs),
                 right_shape=right.size,
             )
-        right_exprs = list(right)  # ElementwisePower is iterable
+        right_exprs = list(right)  # element-wise nodes are iterable
     elif isinstance(right, (np.ndarray, list)):
         arr = np.asarray(right)
         if arr.ndim != 1:
